@@ -106,6 +106,25 @@ theorem firstfit_line_width_escfree (env : Env) (hsp : env.cw SP = 1) (mo : Mini
   exact firstfit_line_width env hsp mo o hb halg line nPrev frs hpipe
     (hnorm_of_escfree frs (fun w hw => (c2 w hw).1) (by rw [c1]; exact hesc))
 
+/-- **coloured text**: for safe lines (`SeqSafe`: every space, and every hyphen when the hyphen
+    splitter is active, is met in skipper state `normal`; the line ends in state `normal` — e.g.
+    any mixture of visible characters and well-formed CSI/OSC sequences that contain no space /
+    hyphen) H-norm is a theorem, for both separators and both built-in splitters, `break_words`
+    on or off. The complement is the recorded finding classes KF-1a, KF-1b, KF-2. -/
+-- @audit TW.C02.firstfit_line_width_safe
+theorem firstfit_line_width_safe (env : Env) (hsp : env.cw SP = 1) (mo : MinimaOracle Int) (o : Opts)
+    (hb : Builtin o.splitter) (halg : o.alg = .firstFit) (line : Text) (hsafe : SeqSafe o.splitter line)
+    (nPrev : Nat) (frs : List Word)
+    (hpipe : pipeline env o line (o.width - displayWidth env.cw o.subsequentIndent) = some frs) :
+    ∃ groups : List (List Word),
+      wrapSingleLineSlow env mo o line nPrev = some (specLines o groups 0 nPrev) ∧
+      groups.flatten = frs ∧
+      ∀ k g, groups[k]? = some g → 2 ≤ g.length →
+        displayWidth env.cw (groupSlice g) ≤ o.width - displayWidth env.cw (indentOf o (nPrev + k)) ∧
+        Ansi.run .normal (groupSlice g) = .normal :=
+  firstfit_line_width env hsp mo o hb halg line nPrev frs hpipe
+    (pipeline_hnorm env o hb line hsafe _ frs hpipe)
+
 /-- **force-broken pieces**: with `break_words`, every fragment handed to the algorithm is at most
     as wide as the subsequent-line width, or holds a single non-zero-width visible character -/
 -- @audit TW.C02.broken_fragment_bound
